@@ -1451,6 +1451,10 @@ insert_list:
         spinlock* waitq_lock = waitq ? &waitq->lock : nullptr;
         SCOPED_LOCK(waitq_lock, ((bool) waitq) * 2);
         SCOPED_LOCK(rq.current->lock);
+        // an interrupt that hit this thread while it was READY but not in
+        // thread_yield() (e.g. before it ever ran) must not end this later,
+        // unrelated sleep -- just as thread_yield() clears it on entry
+        rq.current->error_number = 0;
         assert(!AtomicRunQ(rq).single());
         auto sw = AtomicRunQ(rq).remove_current(states::SLEEPING);
         if (waitq) {
